@@ -100,7 +100,16 @@ DAG_NAMES = {
     "same-name-different-entities": {1: "Leaf", 2: "Leaf"},
     "same-name-different-case": {1: "Leaf", 2: "LEAF"},
 }
-I.register_model(VR.Entity.__dict__["name"], lambda it, self: self.fields["f_name"])
+_prev_entity_name = I.MODELS.get(id(VR.Entity.__dict__["name"]))  # another module (c06_names) may model Entity.name for ITS shapes
+
+
+def _entity_name(it, self):
+    if "f_name" in self.fields or _prev_entity_name is None:
+        return self.fields["f_name"]
+    return _prev_entity_name(it, self)
+
+
+I.register_model(VR.Entity.__dict__["name"], _entity_name)
 
 
 def dag_shape(dag, names=None):
